@@ -12,6 +12,7 @@ func init() {
 		ruleFloatFmt(c, r, c.funcsInScope(func(s string) bool { return s == "ygot/render.go" }, libPkgs))
 		ruleEnumLib(c, r)
 		ruleReflectSign(c, r, c.funcsInScope(func(s string) bool { return s == "ygot/render.go" || s == "ytypes/util_types.go" }, libPkgs), 4)
+		ruleBase64Std(c, r)
 	})
 	register("C02", func(c *Ctx, r *Report) {
 		r.Decides("gNMI scalar wrapper produced per YANG kind is accepted by the decoder; every key kind has a string form and both parsers; every leaf-list element kind is encodable.",
@@ -32,6 +33,7 @@ func init() {
 		ruleIntBase(c, r)
 		ruleLossyNum(c, r, c.funcsInScope(func(s string) bool { return s == "ytypes/leaf.go" || s == "ytypes/leaf_list.go" || s == "ytypes/util_types.go" || s == "ygot/render.go" }, libPkgs), 2)
 		ruleFmtConst(c, r, c.funcsInScope(func(s string) bool { return s == "ygot/render.go" }, libPkgs), 10)
+		ruleKeyMapLookupN(c, r, 4, "ytypes", "node.go", "gnmi.go", "list.go")
 	})
 	register("C16", func(c *Ctx, r *Report) {
 		r.Decides("every supported key kind has a string form in KeyValueAsString and a parser in stringToKeyType and StringToType; binary keys are rejected by the generator.",
@@ -45,6 +47,8 @@ func init() {
 		ruleIntBase(c, r)
 		ruleKeyExact(c, r)
 		ruleFmtConst(c, r, c.funcsInScope(func(s string) bool { return s == "ygot/render.go" }, libPkgs), 10)
+		ruleBase64Std(c, r)
+		ruleKeyMapLookupN(c, r, 4, "ytypes", "node.go", "gnmi.go", "list.go")
 	})
 }
 
@@ -111,6 +115,7 @@ func init() {
 		ruleWildcardOpt(c, r)
 		ruleReflectString(c, r, c.anchored("C12"))
 		ruleKeyExact(c, r)
+		ruleKeyMapLookupN(c, r, 4, "ytypes", "node.go", "gnmi.go", "list.go")
 	})
 }
 
@@ -170,6 +175,10 @@ func init() {
 		r.Decides("phase order delete ≺ replace ≺ update with the prefix and the matching request field; per-replace delete-then-write in one iteration; slices iterated in message order with the prefix joined; no notification or path skipped outside the best-effort error branch; the atomic prefix-delete exactly under n.Atomic.",
 			"equivalence with a path→value reference model for all request sequences.")
 		ruleSetOrder(c, r)
+		ruleWildcardOpt(c, r)
+		ruleKeyMapLookupN(c, r, 4, "ytypes", "node.go", "gnmi.go", "list.go")
+		ruleLeafListReplace(c, r)
+		ruleDispatchTotal(c, r)
 	})
 	register("C14", func(c *Ctx, r *Report) {
 		r.Decides("pruneBranchesInternal's result flag is monotone; every Set writes a zero value into an empty struct-pointer/ordered-map field; ordered maps are recognised before struct pointers are dereferenced (no reflection into unexported fields); non-pointer leaves are compared with their type's zero value.",
@@ -254,6 +263,7 @@ func init() {
 		ruleLeafListReplace(c, r)
 		ruleListMerge(c, r)
 		ruleOptsForward(c, r, c.anchored("C31", "ytypes/leaf.go", "ytypes/choice.go"), 9)
+		ruleDispatchTotal(c, r)
 	})
 }
 
@@ -311,12 +321,15 @@ func init() {
 		ruleOrderedMapTraversal(c, r)
 		ruleDiffGuards(c, r)
 		ruleSetOrder(c, r)
+		ruleWildcardOpt(c, r)
 	})
 	register("C34", func(c *Ctx, r *Report) {
 		r.Decides("the keyed-list helper code that gogen's templates expand to, for every key shape in the analyser's table, obeys the keyed-map discipline method by method (New/Append reject duplicates and nil keys before writing, Get never writes, GetOrCreate creates only on a miss, Delete removes only the key, Rename validates first, updates every key leaf from newK and moves the entry).",
 			"equivalence with the reference model over all helper-call histories; key types beyond pointer/non-pointer (the templates do not distinguish them).")
 		r.Assume("text/template of the standard library expands the templates as the generator's own engine does; the analyser's data shapes carry the fields the templates read (an unknown field is reported as undecided)")
 		ruleKeyedListTemplates(c, r)
+		ruleOrderedMapTemplates(c, r)
+		ruleKeyFieldName(c, r)
 	})
 }
 
@@ -344,6 +357,8 @@ func init() {
 		rulePathKeyEntries(c, r)
 		ruleTablesKeys(c, r)
 		ruleReflectSign(c, r, c.funcsInScope(func(s string) bool { return s == "ygot/render.go" }, libPkgs), 3)
+		ruleRelPathPositional(c, r)
+		ruleBase64Std(c, r)
 	})
 }
 
@@ -367,6 +382,8 @@ func init() {
 		ruleSchemaEmbed(c, r)
 		ruleSchemaTreeKey(c, r)
 		ruleLoopNameUnique(c, r)
+		ruleKeyFieldName(c, r)
+		ruleRelPathPositional(c, r)
 	})
 }
 
@@ -383,6 +400,7 @@ func init() {
 		ruleWildcardOpt(c, r)
 		rulePartialKey(c, r)
 		ruleKeyExact(c, r)
+		ruleKeyMapLookupN(c, r, 4, "ytypes", "node.go", "gnmi.go", "list.go")
 		ruleIntBase(c, r)
 		ruleLossyNum(c, r, c.funcsInScope(func(s string) bool { return s == "ytypes/leaf.go" || s == "ytypes/leaf_list.go" || s == "ytypes/util_types.go" || s == "ygot/render.go" }, libPkgs), 2)
 	})
